@@ -13,6 +13,7 @@
 -/
 import Netpoll.Conn.Flush
 import Netpoll.Conn.FlushSpec
+import Netpoll.Gen.Consts
 namespace Driver.Flush
 open Netpoll.Conn.Flush
 open Netpoll.Conn (FlushSpec.Ev FlushSpec.Summary)
@@ -47,6 +48,14 @@ def readyOf (comms : String) (ch : String) : Option Bool :=
   (comms.splitOn ",").findSome? (fun c => match c.splitOn ":" with
     | [_, name, r] => if name == ch then some (r == "1") else none
     | _ => none)
+
+/-- what one `GetBytes` + `sendmsg` may offer of an output buffer holding `out` bytes: everything, or - when the vector is
+full (`barriercap` slices, one per non-empty node) - a proper prefix.  `vecs` is the K line's `vecs=<n>` token. -/
+def offerOk (out : Nat) (offered vecs : String) : Bool :=
+  toNat offered == out || (toNat offered < out && toNat (getKV [vecs] "vecs") == Netpoll.Gen.c_barriercap)
+
+/-- calls of the script that submit nothing to the kernel (no Flush inside): WriteBinary / a burst of Appends -/
+def noFlushOp (op : String) : Bool := op == "M" || op == "V"
 
 def isChkActive : FPc → Bool
   | .chkActive _ _ => true
@@ -89,7 +98,7 @@ def cands (s : S) (curOp curMode : String) (skipLoad : Bool) (ws : List String) 
   | "G" :: "flusher" :: "malloc" :: _ => [nop]
   | "G" :: "flusher" :: "ret" :: _ :: rest =>
       let res := getKV rest "res"
-      let okRes : Bool := if curOp == "M" then true else
+      let okRes : Bool := if noFlushOp curOp then true else
         match resOf res, s.results.head? with
         | some r, some x => x.1 == r
         | _, _ => false
@@ -115,10 +124,10 @@ def cands (s : S) (curOp curMode : String) (skipLoad : Bool) (ws : List String) 
           if skipLoad then [nop]
           else if isChkEmpty s.f then [{ acts := [.fstep], pre := fun s => s.out == toNat r }] else []
       | _ => []
-  | ["K", "flusher", _, "sendmsg", offered, n, _] =>
+  | ["K", "flusher", _, "sendmsg", offered, n, _, vecs] =>
       -- the model's `out` mirrors outputBuffer.Len(): an accepted count n > 0 takes effect at the Skip line that follows
-      if toInt n > 0 then [nop (fun s => isSend s.f && s.out == toNat offered && toNat n ≤ toNat offered)]
-      else [{ acts := [.fsend 0], pre := fun s => isSend s.f && s.out == toNat offered }]
+      if toInt n > 0 then [nop (fun s => isSend s.f && offerOk s.out offered vecs && toNat n ≤ toNat offered)]
+      else [{ acts := [.fsend 0], pre := fun s => isSend s.f && offerOk s.out offered vecs }]
   | ["G", "flusher", "epoll", "mod", "rw"] => [{ acts := [.fstep], pre := fun s => isR2rw s.f }]
   | ["G", "flusher", "epoll", "mod", "r"] => [{ acts := [.fstep], pre := fun s => s.f == .tmoRw2r }]
   | ["T", "flusher", _, op, "wtimer", res] =>
@@ -160,9 +169,9 @@ def cands (s : S) (curOp curMode : String) (skipLoad : Bool) (ws : List String) 
           else if s.p == .outputs || s.p == .ackChk then [{ acts := [.pstep], pre := fun s => s.out == toNat r }] else []
       | "add" => if toInt a < 0 then [{ acts := [.psend (-(toInt a)).toNat], pre := fun s => s.p == .sendAck, post := fun s => s.out == toNat r }] else []
       | _ => []
-  | ["K", "wpoller", _, "sendmsg", offered, n, _] =>
-      if toInt n > 0 then [nop (fun s => s.p == .sendAck && s.out == toNat offered && toNat n ≤ toNat offered)]
-      else [{ acts := [.psend 0], pre := fun s => s.p == .sendAck && s.out == toNat offered }]
+  | ["K", "wpoller", _, "sendmsg", offered, n, _, vecs] =>
+      if toInt n > 0 then [nop (fun s => s.p == .sendAck && offerOk s.out offered vecs && toNat n ≤ toNat offered)]
+      else [{ acts := [.psend 0], pre := fun s => s.p == .sendAck && offerOk s.out offered vecs }]
   | ["P", "wpoller", _, "1", comm] =>
       match readyOf comm "wr" with
       | some room => [{ acts := [.pstep], pre := fun s => s.p == .rw2rTrig && s.slot.isNone == room }]
@@ -222,7 +231,7 @@ def evsOf (ws : List String) : List FlushSpec.Ev :=
   | "G" :: "flusher2" :: "f2" :: "ret" :: rest => [.f2ret (getKV rest "res") (getKV rest "same" == "1")]
   | ["S", _, _, "outLen", fn, a, _, _] =>
       if opOf fn == "add" then (if toInt a > 0 then [.submitted (toInt a).toNat] else if toInt a < 0 then [.skipped (-(toInt a)).toNat] else []) else []
-  | ["K", _, _, "sendmsg", _, n, _] => if toInt n > 0 then [.accepted (toInt n).toNat] else []
+  | ["K", _, _, "sendmsg", _, n, _, _] => if toInt n > 0 then [.accepted (toInt n).toNat] else []
   | ["G", "wtimer", "fire", "true"] => [.fired]
   | ["G", "flusher", "select-forced", c, also] => if c == "case=wtimer" then [.tickTaken (also == "also-ready=wr")] else []
   | ["S", _, _, "closing", fn, _, _, r] => if opOf fn == "cas" && r == "1" then [.closed] else []
@@ -310,7 +319,7 @@ def main (path : String) : IO Unit := do
           | "G" :: "flusher2" :: "f2" :: "ret" :: rest => stats := bump stats s!"f2 result {getKV rest "res"}"
           | ["G", "wtimer", "fire", _] => stats := bump stats "timer-fired"
           | ["G", "wpoller", "wevent"] => stats := bump stats "write-events"
-          | ["K", _, _, "sendmsg", offered, n, _] =>
+          | ["K", _, _, "sendmsg", offered, n, _, _] =>
               stats := bump stats (if toInt n ≤ 0 then "kernel EAGAIN" else if toNat n < toNat offered then "kernel partial" else "kernel all")
           | _ => pure ()
           let isOutLoad : Bool := match ws with
@@ -327,7 +336,7 @@ def main (path : String) : IO Unit := do
           if skipLoad then
             if actor == "flusher" then rs := { rs with skipF := false } else rs := { rs with skipP := false }
           match ws with
-          | ["K", who, _, "sendmsg", _, n, _] =>
+          | ["K", who, _, "sendmsg", _, n, _, _] =>
               if toInt n > 0 then
                 if who == "flusher" then rs := { rs with skipF := true } else if who == "wpoller" then rs := { rs with skipP := true }
           | _ => pure ()
